@@ -87,3 +87,10 @@ Theorem c11_ro_reads_equal : forall o now s r t', ro s = false -> is_reopen o = 
   exists t, exec o now s = (t, r) /\ sto t = sto s.
 Proof. exact ro_success_means_no_write. Qed.
 Print Assumptions c11_ro_reads_equal.
+
+(* non-vacuity (Proofs/NonVacuous.v; concrete reachable states, by vm_compute) *)
+From NixV Require Proofs.NonVacuous.
+(* a mutator that changes a writable session and is refused (EReadOnly) on its read-only twin *)
+Example c11_hypotheses_met := NonVacuous.nv_ro.
+Check c11_hypotheses_met.
+Print Assumptions c11_hypotheses_met.
